@@ -210,3 +210,19 @@ C04 = [
     for fn in ("hwloc_bitmap_sscanf", "hwloc_bitmap_taskset_sscanf")
 ]
 PROPS["C04"] = C04
+
+
+# ------------------------------------------------------------------ C15 cpukinds.c
+def _ck(name, unwind=8, cost=30, entry=None, **kw):
+    return Job(name=name, driver="cpukinds.drv.c", entry=entry or ("hp_" + name), mode="plain", unwind=unwind, min_post=0, cost=cost, family="cpukinds",
+               label="bounded", **kw)
+
+C15 = [
+    _ck("hwloc_internal_cpukinds_register.n%d" % n, cost=60, timeout=1500, entry="hp_hwloc_internal_cpukinds_register",
+        defines={"FIXED_NR": n, "REG_ALLOC": 0 if n == 0 else 8},
+        note="partition invariant (non-empty, pairwise disjoint, union = old union + new set, <= 2N+1 kinds, array bounds) with %d existing kinds over an 8-PU universe (one PU per Venn region), every new cpuset / efficiency / flag word; empty cpuset and unknown flags => EINVAL; loops unwound 8 times" % n)
+    for n in (0, 1, 2, 3)
+] + [
+    _ck("hwloc_cpukinds_get_by_cpuset", note="index of the containing kind, EXDEV iff straddling/partially covered, ENOENT iff disjoint from all kinds, EINVAL for flags/NULL/empty; <= 3 kinds, 8-PU universe"),
+]
+PROPS["C15"] = C15
